@@ -206,6 +206,40 @@ func c17TwinRun(c c17Twin, r *hx.Rec) error {
 	return nil
 }
 
+// c17Big: Set.Filter on sets of the size of a real product list (a vendored tree): every element is
+// judged by the pattern, however many there are.
+type c17Big struct {
+	N       int    `json:"n"`
+	Pattern string `json:"pattern"`
+}
+
+func c17BigRun(c c17Big, r *hx.Rec) error {
+	var names []string
+	for i := 0; i < c.N; i++ {
+		names = append(names, fmt.Sprintf("vendor/pkg%d/file-%d.%s", i%37, i, []string{"go", "c", "h", "txt"}[i%4]))
+	}
+	set := intoto.NewSet(names...)
+	got := set.Filter(c.Pattern)
+	want := 0
+	for _, n := range names {
+		m, _ := hx.RefGlob(c.Pattern, n)
+		if m {
+			want++
+			if !got.Has(n) {
+				return fmt.Errorf("set of %d names, pattern %q: %q matches but was not selected (%d selected)", c.N, c.Pattern, n, len(got))
+			}
+		}
+	}
+	if len(got) != want {
+		return fmt.Errorf("set of %d names, pattern %q: %d selected, %d match", c.N, c.Pattern, len(got), want)
+	}
+	r.Label("n>=1024=%v", c.N >= 1024)
+	if c.N >= 1024 {
+		r.Nontrivial()
+	}
+	return nil
+}
+
 func TestC17(t *testing.T) {
 	begin(t, "C17")
 	hx.Assume("reference matcher written from the grammar documented in in_toto/match.go and the property statement; patterns and names are valid UTF-8")
@@ -221,6 +255,22 @@ func TestC17(t *testing.T) {
 	if !t.Failed() {
 		ck.Execute(t)
 	}
+	if t.Failed() {
+		return
+	}
+	hx.Check[c17Big]{
+		Property: "C17", Part: "big-sets",
+		Rule:  "Set.Filter on sets of 1..5000 generated path names (sizes around powers of two and their neighbours) with patterns that select all, some or none; every matching name, and no other, is selected; non-trivial = a set of at least 1024 names; distinct by (size, pattern)",
+		Cases: hx.Pick(120, 4000),
+		Gen: func(t *rapid.T) c17Big {
+			n := rapid.SampledFrom([]int{1, 7, 8, 9, 100, 255, 256, 257, 1000, 1023, 1024, 1025, 1030, 2047, 2048, 2049, 4095, 4100, 5000}).Draw(t, "n")
+			if rapid.IntRange(0, 3).Draw(t, "oddn") == 0 {
+				n = rapid.IntRange(1, 5000).Draw(t, "nrandom")
+			}
+			return c17Big{N: n, Pattern: rapid.SampledFrom([]string{"*", "vendor/*", "*.go", "*/pkg3/*", "vendor/pkg1?/*.[ch]", "*file-1*", "nomatch", "vendor/pkg0/file-0.go", "*[^o]"}).Draw(t, "pattern")}
+		},
+		Run: c17BigRun,
+	}.Execute(t)
 	if t.Failed() {
 		return
 	}
